@@ -81,6 +81,52 @@ GUESS = {
     "m": ["3"], "k": ["3"], "d": ["2"], "l": ["1"], "order": ["1"], "max_order": ["2"], "sizes": ["[4, 5]"],
     "epsilon": ["0.5"], "p2": ["0.5"], "k1": ["{0:2,1:2,2:1,3:3,4:2}"], "k2": ["{0:3,1:3,2:2,3:2}"],
 }
+
+
+def _rand_h(r, lo=6, hi=12):
+    n = r.randint(lo, hi)
+    edges = [sorted(r.sample(range(n), r.randint(2, min(4, n)))) for _ in range(r.randint(n, 2 * n))]
+    edges += [[i, (i + 1) % n] for i in range(n)]          # keep it connected, no isolated nodes
+    return f"xgi.Hypergraph({edges})".replace(" ", "")
+
+
+def _rand_g(r):
+    n = r.randint(5, 9)
+    es = [(a, b) for a in range(n) for b in range(a + 1, n) if r.random() < 0.6]
+    return f"nx.Graph({es})".replace(" ", "")
+
+
+def _p(r):
+    return round(r.uniform(0.05, 0.9), 2)
+
+
+def _degs(r, n, lo=1, hi=4):
+    return "{" + ",".join(f"{i}:{r.randint(lo, hi)}" for i in range(n)) + "}"
+
+
+# argument tuples drawn from the harness PRNG (added to GRID; thorough tier mostly)
+TEMPLATES = {
+    "fast_random_hypergraph": lambda r: f"(({r.randint(5, 14)}, [{_p(r)}, {round(_p(r) / 4, 3)}]), {{}})",
+    "random_hypergraph": lambda r: f"(({r.randint(5, 9)}, [{_p(r)}, {round(_p(r) / 3, 3)}]), {{}})",
+    "chung_lu_hypergraph": lambda r: f"(({_degs(r, r.randint(5, 10))}, {_degs(r, r.randint(4, 8), 2, 4)}), {{}})",
+    "watts_strogatz_hypergraph": lambda r: f"(({r.randint(8, 14)}, 3, 2, 1, {_p(r)}), {{}})",
+    "shuffle_hyperedges": lambda r: f"(({_rand_h(r)}, 1, {_p(r)}), {{}})",
+    "random_simplicial_complex": lambda r: f"(({r.randint(5, 9)}, [{_p(r)}, {_p(r)}]), {{}})",
+    "flag_complex": lambda r: f"(({_rand_g(r)},), {{'max_order': 2, 'ps': [{_p(r)}]}})",
+    "flag_complex_d2": lambda r: f"(({_rand_g(r)},), {{'p2': {_p(r)}}})",
+    "random_flag_complex_d2": lambda r: f"(({r.randint(5, 12)}, {_p(r)}), {{}})",
+    "random_flag_complex": lambda r: f"(({r.randint(5, 10)}, {_p(r)}), {{'max_order': {r.randint(2, 3)}}})",
+    "uniform_hypergraph_configuration_model": lambda r: f"(({_degs(r, r.randint(5, 10), 1, 3)}, {r.randint(2, 3)}), {{}})",
+    "uniform_HSBM": lambda r: f"((8, 2, np.array([[{_p(r)},{_p(r)}],[{_p(r)},{_p(r)}]]), [{(a := r.randint(2, 6))},{8 - a}]), {{}})",
+    "uniform_HPPM": lambda r: f"(({r.randint(8, 14)}, {r.randint(2, 3)}, {r.randint(1, 4)}, {_p(r)}), {{}})",
+    "uniform_erdos_renyi_hypergraph": lambda r: f"(({r.randint(6, 12)}, {r.randint(2, 3)}, {round(_p(r) / 3, 3)}), {{'multiedges': {r.random() < 0.5}}})",
+    "random_layout": lambda r: f"(({_rand_h(r)},), {{}})",
+    "pairwise_spring_layout": lambda r: f"(({_rand_h(r)},), {{}})",
+    "bipartite_spring_layout": lambda r: f"(({_rand_h(r)},), {{}})",
+    "barycenter_spring_layout": lambda r: f"(({_rand_h(r)},), {{}})",
+    "weighted_barycenter_spring_layout": lambda r: f"(({_rand_h(r)},), {{}})",
+    "spectral_clustering": lambda r: f"(({_rand_h(r, 8, 14)}, {r.randint(2, 3)}), {{}})",
+}
 SEEDS_QUICK = [0, 1, 42]
 SEEDS_THOROUGH = [0, 1, 2, 3, 5, 7, 11, 42, 1234, 99991, 2 ** 31 - 1, 2 ** 32 - 1]
 
@@ -424,9 +470,11 @@ def run(ctx):
         ctx.broken.append(f"translator~implementation: functions with a seed parameter missing from the table: {missing}")
     ch = Checker(ctx, info)
     seeds = list(SEEDS_QUICK if ctx.quick else SEEDS_THOROUGH) + [ctx.rng.randrange(2 ** 32) for _ in range(ctx.n(1, 6))]
-    grid = {}
+    grid, unusable = {}, []
     for n, f in sorted(public.items()):
-        g = GRID.get(n) or guessed_grid(f)
+        g = list(GRID.get(n) or guessed_grid(f))
+        if n in TEMPLATES:
+            g += [TEMPLATES[n](ctx.rng) for _ in range(ctx.n(1, 8))]
         usable = []
         for expr in g:
             try:
@@ -434,8 +482,10 @@ def run(ctx):
                 k, s, _ = call(f, expr, 0, record=False)
                 if k == "ok":
                     usable.append(expr)
-            except Exception:  # noqa
-                pass
+                else:
+                    unusable.append(f"{n}(*{expr}) raises {s}")
+            except Exception as e:  # noqa
+                unusable.append(f"{n}: {expr}: {type(e).__name__}")
         if usable:
             grid[n] = usable
         else:
@@ -505,9 +555,13 @@ def run(ctx):
         "library classification (networkx seed= -> local generator; eigsh without v0/rng -> OS entropy; an explicit v0 makes eigsh "
         "deterministic, ARPACK restarts not modelled) is part of the trusted translator",
     ]
+    ctx.exhaustive = not ch.not_exercised and not missing
+    ctx.extra["exhaustive_space"] = ("the finite set of public functions with a `seed` parameter (introspection): every one is in the "
+                                     "regenerated table, was called, and had its RNG consumption checked against the table"
+                                     if ctx.exhaustive else "not exhaustive: see not_exercised")
     ctx.extra.update(
         seeded_functions_discovered=sorted(public), private_seeded=sorted(n for n, (f, p) in found.items() if not p),
-        exercised=sorted(ch.exercised), not_exercised=ch.not_exercised, seeds=seeds,
+        exercised=sorted(ch.exercised), not_exercised=ch.not_exercised, argument_tuples_rejected=unusable, seeds=seeds,
         table={n: i["effs"] for n, i in info.items()}, ill_seeded=ill, translator_notes=notes,
         table_regenerated=changed, disagreements=ch.dis,
         sources_attributed={n: sorted(i["draw"]) for n, i in info.items()},
